@@ -163,7 +163,7 @@ func errlineFamilies(tier string) []*core.Family {
 		eols = []string{"\n", "\r\n", "\r", "\n\r"}
 	}
 	ne := uint64(len(eols))
-	return []*core.Family{{Name: "error-line", Size: uint64(len(es)) * ne,
+	return []*core.Family{badTokenFamily(tier), {Name: "error-line", Size: uint64(len(es)) * ne,
 		Show: func(i uint64) string {
 			e := es[i/ne]
 			return fmt.Sprintf("seed %s (%s) edit %s eol %q:\n%s", seeds[e.seed].name, seeds[e.seed].src, e, eols[i%ne], strings.Join(applyEdit(e), " "))
@@ -184,7 +184,7 @@ func errlineFamilies(tier string) []*core.Family {
 			}
 			r := reflex.Recognise(toks)
 			ok, msg := compileOnly(src)
-			id := fmt.Sprintf("in=%s seed=%s edit=%s", r.In, seeds[e.seed].name, e)
+			id := fmt.Sprintf("in=%s at=%s seed=%s edit=%s", r.In, kindAt(toks, r.ErrIdx), seeds[e.seed].name, e)
 			if eol != "\n" {
 				id += fmt.Sprintf(" eol=%q", eol)
 			}
@@ -195,7 +195,13 @@ func errlineFamilies(tier string) []*core.Family {
 				vs = append(vs, viol("errline clause=accepted-invalid "+id, "not a chunk (no valid chunk can continue at token %d %q, grammar of §9) but accepted:\n%s", r.ErrIdx+1, tokText(texts, r.ErrIdx), prog))
 			case r.ErrIdx >= 0:
 				want := r.ErrIdx + 1
-				if got := errLine(msg); got != want {
+				got := errLine(msg)
+				if r.BadAttribIdx >= 0 && got == r.BadAttribIdx+1 {
+					// an attribute other than const/close was read before the
+					// offending token: reporting that name is equally justified (§3.3.7)
+					got = want
+				}
+				if got != want {
 					vs = append(vs, viol(fmt.Sprintf("errline clause=line %s site=%q", id, site(msg)),
 						"one token per line:\n%s\nthe first token at which no valid chunk can continue is token %d %q, so the error line is %d; golua reports line %d: %s",
 						prog, want, tokText(texts, r.ErrIdx), want, got, msg))
@@ -210,6 +216,59 @@ func errlineFamilies(tier string) []*core.Family {
 			// unknown attributes, goto/label rules) are not part of this property
 			return out(vs, fmt.Sprint(r.ErrIdx, ok, errLine(msg)), r.ErrIdx >= 0)
 		}}}
+}
+
+func kindAt(toks []reflex.Token, i int) string {
+	if i < 0 {
+		return "-"
+	}
+	if i >= len(toks) {
+		return "eof"
+	}
+	return toks[i].Kind
+}
+
+// Tokens no Lua lexer accepts: inserted before position p of a seed (one token
+// per line) they are the first point at which no chunk can continue.
+var badTokens = []string{"@", "$", "!", "?", "`", "\\", "\"abc", "'x", "\"a\\q\"", "3x", "0x", "1e+"}
+
+func badTokenFamily(tier string) *core.Family {
+	type bc struct{ seed, pos, bad int }
+	var cs []bc
+	for si, s := range seeds {
+		n := len(mustLex(s.src))
+		for p := 0; p <= n; p++ {
+			for b := range badTokens {
+				cs = append(cs, bc{si, p, b})
+			}
+		}
+	}
+	prog := func(c bc) []string {
+		var texts []string
+		for _, t := range mustLex(seeds[c.seed].src) {
+			texts = append(texts, t.Text)
+		}
+		return append(texts[:c.pos:c.pos], append([]string{badTokens[c.bad]}, texts[c.pos:]...)...)
+	}
+	return &core.Family{Name: "error-line-badtoken", Size: uint64(len(cs)),
+		Show: func(i uint64) string {
+			return fmt.Sprintf("seed %s, invalid token %q inserted at %d:\n%s", seeds[cs[i].seed].name, badTokens[cs[i].bad], cs[i].pos, strings.Join(prog(cs[i]), " "))
+		},
+		Run: func(i uint64) core.Outcome {
+			c := cs[i]
+			texts := prog(c)
+			src := strings.Join(texts, "\n") + "\n"
+			ok, msg := compileOnly(src)
+			var vs []*core.Violation
+			id := fmt.Sprintf("bad=%q seed=%s pos=%d", badTokens[c.bad], seeds[c.seed].name, c.pos)
+			if ok {
+				vs = append(vs, viol("errline-badtoken clause=accepted "+id, "text with an invalid token accepted:\n%s", strings.Join(texts, " ")))
+			} else if got := errLine(msg); got != c.pos+1 {
+				vs = append(vs, viol("errline-badtoken clause=line "+id, "one token per line:\n%s\nthe invalid token %q is on line %d; golua reports line %d: %s",
+					strings.Join(texts, " "), badTokens[c.bad], c.pos+1, got, msg))
+			}
+			return out(vs, fmt.Sprint(ok, errLine(msg)), true)
+		}}
 }
 
 func tokText(texts []string, i int) string {
